@@ -13,8 +13,8 @@ CHECKS = {
          "Every reachable state of the real wallet under Scan(any contiguous run of segments)/Tip/Rewind+switch-branch operations over a generated block universe is visited (bounded by depth, one or two rewinds and the stated caps) and in each the balances, note rows and spent status are compared with a generation-time ledger; fully scanned states are compared with a fresh linear scan.",
          "Trusted: SQLite, the protocol crates used to build really-encrypted compact outputs; expiry of orphaned transactions follows the documented 40-block rule; quick tier explores the 'tiny' universe under a wall cap (reported), thorough the 'small' and 'mid' universes.",
          "DESIGN.md section 4 C01"),
- "C02": ("fault_enumeration", "exhaustive fault injection through SQLite hooks (progress_handler / authorizer / commit_hook) at every VM step, statement compilation and commit boundary of each write operation",
-         "For each (write operation, pre-state) every SQLite VM step is interrupted, every statement compilation is made to fail and every commit is vetoed once; after each fault the full database dump must equal the pre-state (or the complete post-state), and repeating the operation must reach the uninterrupted post-state.",
+ "C02": ("fault_enumeration", "exhaustive fault injection through SQLite hooks (progress_handler / authorizer / commit_hook) at every VM step, statement compilation and commit boundary of each write operation; exhaustive two-connection interleavings (complete writer at every VM step / statement boundary of snapshot reads, reader snapshot at every p-th writer step) in rollback-journal and WAL mode",
+         "For each (write operation, pre-state) every SQLite VM step is interrupted, every statement compilation is made to fail and every commit is vetoed once; after each fault the full database dump must equal the pre-state (or the complete post-state), and repeating the operation must reach the uninterrupted post-state. On a file-backed database a second connection observes the writer inside one read transaction, and the complete writer runs at every interruption point of get_wallet_summary and the migration oracles: every observation / answer must be the pre-state's or the post-state's.",
          "Trusted: SQLite atomic commit and rollback; interrupts inside BEGIN/COMMIT/ROLLBACK statements are not injected (SQLite artefact, see DESIGN.md); quick tier covers a subset of operations under a wall cap (reported).",
          "DESIGN.md section 4 C02"),
  "C03": ("exploration", "exhaustive shape-lattice and distance-1 byte/field mutation enumeration on the real codec, independent reference writer/parser",
@@ -30,8 +30,8 @@ CHECKS = {
          "Schedules are exhaustive at task granularity (tasks share no memory; flume internals are not interleaved).",
          "DESIGN.md section 4 C05"),
  "C06": ("model_checking", "explicit-state BFS over the real SQLite wallet with tree oracles evaluated in every state",
-         "In every state of the C01-style state graph (plus subtree-root insertion) every retained checkpoint of every pool is compared with the chain frontier root recorded at generation time, every wallet note's Merkle path is recomputed from the leaf, pools must be checkpointed at the same heights and every scanned anchor-retention boundary must hold a checkpoint (also after more than 100 later checkpoints in the thorough universe).",
-         "Trusted: incrementalmerkletree frontier arithmetic and the pools' Merkle hashes; computability is demanded only when all blocks from the birthday are scanned.",
+         "In every state of the C01-style state graph (plus subtree-root insertion and the caching Merkle-path computation of a spend; universe with an idle-pool stretch and a fork inside a shard) every retained checkpoint of every pool is compared with the chain frontier root recorded at generation time, every wallet note's Merkle path is recomputed from the leaf, every scan must checkpoint all pools at the same heights (compared from the pruning floor up) and every scanned anchor-retention boundary must hold a checkpoint in every pool (also after more than 100 later checkpoints).",
+         "Trusted: incrementalmerkletree frontier arithmetic and the pools' Merkle hashes; computability is demanded only when all blocks from the birthday are scanned; in the quick tier roots / paths are evaluated at a stated subset of checkpoints when a state retains more than twelve.",
          "DESIGN.md section 4 C06"),
  "C07": ("exploration", "exhaustive lattice enumeration of inputs/outputs/policies/heights on the real fee rule and change strategies, independent i128 ZIP 317 oracle",
          "Every case of a lattice of input/output multisets per pool x dust/split policies x heights x anchors x ephemeral balances is run through fee_required and both change strategies and checked for conservation, ZIP 317 fee of the final padded shape, dust clause, NU6.3 Orchard turnstile and truthful InsufficientFunds.",
@@ -62,12 +62,12 @@ CHECKS = {
          "Real proofs only in the thorough tier; orchard/sapling/secp256k1 trusted.",
          "DESIGN.md section 4 C13"),
  "C14": ("exploration", "exhaustive builder shape lattice x heights x padding x fee rules x funding deltas, independent fee/decryption/signature oracle",
-         "Every builder request of the lattice is run through mock_build/build_for_pczt (+ real proofs for a few shapes in thorough) and the result is checked for requested spends/outputs plus zero-valued padding, exact fee of the final shape, recipient decryption, secp256k1-verified transparent signatures and correct refusals.",
+         "Every builder request of the lattice (incl. BundlePadding bundle_required x pad_to_minimum per pool and P2PKH / P2SH-multisig transparent inputs) is run through mock_build/build_for_pczt/DeferredPcztBuilder (+ real proofs for a few shapes) and the result is checked for requested spends/outputs plus zero-valued padding, bundles the padding requires, exact fee of the final shape, recipient decryption, script-level secp256k1 verification of every transparent signature under an independently computed signature hash, and correct refusals.",
          "Padding model from the documentation; external protocol crates trusted.",
          "DESIGN.md section 4 C14"),
  "C15": ("model_checking", "explicit-state search of all insertion sequences on the real SpanningTree (two engines, counts must agree) and BFS over the real SQLite wallet with light-client steps",
          "(a) every insertion sequence up to length 3 (quick) / 4 (thorough) over all ranges, priorities and the force flag, state = full tree shape, oracle = pointwise dominance table; (b) wallet state graph with client steps on suggested ranges, tips and rewinds: queue structure, Scanned iff scanned, strict progress of every client step, nothing suggested => fully scanned.",
-         "Free scans of non-suggested ranges are outside the property's quantifier; one known finding (tree conflict after tip-first scan + rewind).",
+         "Free scans of non-suggested ranges are outside the property's quantifier.",
          "DESIGN.md section 4 C15"),
  "C16": ("exploration", "exhaustive boundary-balance x cap x buffer x fee x oracle-alphabet enumeration against an independent canonical split",
          "Every balance within +-2 of every boundary expression of up to 3 quanta x note counts x caps x buffers x fees x nine preparation-cost oracles (incl. refusing, over-charging, stateful, usize::MAX) is planned twice with different RNGs and checked for canonicity, prefix of the reference split, exact conservation, residual bound and RNG independence.",
